@@ -30,6 +30,9 @@ ASSUMPTIONS = [
 
 # ----------------------------------------------------------------------------- own encoder (expected bytes)
 
+TOVEC = ["tovec", "tovecw", "tovech", "tovecwh", "tovecb", "tovecn", "tovecwn"]
+
+
 def head(maj, n):
     return gen.head(maj, n)
 
@@ -103,7 +106,7 @@ def judge_enc(op, impl, model, spec):
         return "violation"                      # panic / crash / garbage
     status, pos, buf, canary = r
     good = canary == "ok"
-    if kind == "vec":
+    if kind == "vec" or kind in TOVEC:
         good = good and status == "ok" and buf == exp and pos == len(exp)
     else:
         fits = len(exp) <= cap
@@ -286,6 +289,11 @@ def streams(rng, tier):
                     continue
                 ops.append(f"sinkval {k} {cap} {v} #exp:{gen.hexb(exp)}")
                 mops.append(f"sinkenc {k} {cap} {' '.join(ch)}")
+        # the growable-vector entry points of lib.rs, on a thread with a history: after failed calls (h), after a
+        # big successful one (b), nested inside another to_vec (n); the model knows one growable vector
+        for k in TOVEC:
+            ops.append(f"sinkval {k} 0 {v} #exp:{gen.hexb(exp)}")
+            mops.append(f"sinkenc vec 0 {' '.join(ch)}")
     s2 = Stream("typed-values-into-sinks", "hcore", ops, model_ops=mops, judge=judge_enc, nontrivial=nontrivial,
                 rule="sinkval: minicbor::encode(value, sink) for concrete types x every capacity x sink kinds; the model runs the equivalent Encoder call chain")
     s2.shrinkable = False
